@@ -261,6 +261,17 @@ func evalC12(c C12Case) *h.Finding {
 				fail("c12-auth-octets", "AUTH is not permitted here but the mechanism received %d responses", nexts)
 			}
 		}
+		// what is advertised depends on configuration, backend and TLS state - not on what happened on the connection:
+		// after the AUTH attempt (successful or not) and everything before it the list is the same
+		if r2 := one(verb + " again.example"); r2.Code == 250 {
+			got2 := append([]string(nil), r2.Lines[1:]...)
+			sort.Strings(got2)
+			if strings.Join(got2, "|") != strings.Join(want, "|") {
+				fail("c12-capabilities", "a second %s (after transactions and AUTH answered %s) lists %q, the configuration calls for %q", verb, ar.String(), got2, want)
+			}
+		} else {
+			fail("c12-ehlo", "a second %s was answered %s", verb, r2.String())
+		}
 		// STARTTLS last (it changes the connection)
 		sr := one("STARTTLS")
 		if has("STARTTLS") {
@@ -303,6 +314,76 @@ func evalC12(c C12Case) *h.Finding {
 
 func init() { h.RegisterReplayer("c12", evalC12) }
 
+// ---- two connections of one server at different TLS states, greeting at overlapping times ---------------------
+
+type C12PairCase struct {
+	FirstTLS bool     `json:"first_tls"` // the connection that is held inside AuthMechanisms is the TLS one
+	Cfg      h.Config `json:"cfg"`
+}
+
+// evalC12Pair: connection A sends EHLO and is held inside the backend's AuthMechanisms callback; connection B (the
+// other TLS state) completes its EHLO on the same server; then A goes on. Each reply must be that of its own state.
+func evalC12Pair(c C12PairCase) *h.Finding {
+	var f *h.Finding
+	desc := fmt.Sprintf("two connections of one server, the %s one held inside AuthMechanisms while the other greets; config %+v", map[bool]string{true: "TLS", false: "plaintext"}[c.FirstTLS], c.Cfg)
+	cfg := c.Cfg
+	cfg.TLSAvailable = true
+	cc := C12Case{Cfg: cfg, TLSRoute: "available", AuthBE: true}
+	be := &h.Backend{Auth: true, Mechs: saslMechs, NewSASL: newSASL}
+	var hold chan struct{} // made inside the bubble: only then is a goroutine waiting on it "durably blocked"
+	be.Gate = func(step string) {
+		if step == "cb:AuthMechanisms#1" {
+			<-hold
+		}
+	}
+	caps := func(wire []byte) ([]string, error) {
+		rs, err := ref.ParseReplies(wire)
+		if err != nil || len(rs) != 1 || rs[0].Code != 250 {
+			return nil, fmt.Errorf("EHLO answered with %q (%v)", wire, err)
+		}
+		got := append([]string(nil), rs[0].Lines[1:]...)
+		sort.Strings(got)
+		return got, nil
+	}
+	leak, pan := h.Bubble(func() {
+		defer h.GuardEnter(desc)()
+		hold = make(chan struct{})
+		a := h.NewLive(cfg, be, c.FirstTLS)
+		a.Greeting()
+		if out := a.Send([]byte("EHLO a.example\r\n")); len(out) != 0 {
+			f = h.F("c12-pair-harness", "%s: the first connection was not held: %q", desc, out)
+			close(hold)
+			return
+		}
+		b := h.NewLiveOn(a.Srv, cfg, be, !c.FirstTLS)
+		b.Greeting()
+		gotB, errB := caps(b.Send([]byte("EHLO b.example\r\n")))
+		close(hold)
+		gotA, errA := caps(a.Send())
+		if errA != nil || errB != nil {
+			f = h.F("c12-ehlo", "%s: %v / %v", desc, errA, errB)
+		} else {
+			wantA, wantB := refCaps(cc, c.FirstTLS), refCaps(cc, !c.FirstTLS)
+			if strings.Join(gotA, "|") != strings.Join(wantA, "|") {
+				f = h.F("c12-capabilities", "%s: the held connection lists %q, its state calls for %q", desc, gotA, wantA)
+			} else if strings.Join(gotB, "|") != strings.Join(wantB, "|") {
+				f = h.F("c12-capabilities", "%s: the other connection lists %q, its state calls for %q", desc, gotB, wantB)
+			}
+		}
+		a.Hangup(h.TermEOF)
+		b.Hangup(h.TermEOF)
+	})
+	if f == nil && pan != "" {
+		f = h.F("c12-harness-panic", "%s: %s", desc, pan)
+	}
+	if f == nil && leak != "" {
+		f = h.F("c12-goroutine-leak", "%s: %.300s", desc, leak)
+	}
+	return f
+}
+
+func init() { h.RegisterReplayer("c12-pair", evalC12Pair) }
+
 func C12(tier string) int {
 	run := h.NewRun("C12", tier, "model_checking", "", 25*time.Minute)
 	var cases []C12Case
@@ -322,7 +403,7 @@ func C12(tier string) int {
 			}
 		}
 	}
-	run.Rule = fmt.Sprintf("the COMPLETE configuration space: 5 extension flags x size limit {0,%d} x recipient limit {0,%d} x TLS {none, available, active via implicit TLS, active via STARTTLS, available but the handshake after STARTTLS failed (still plaintext)} x AllowInsecureAuth x backend {auth-capable, plain} x {SMTP, LMTP} = %d configurations (the statement's 3072 plus the second route to TLS-active and the failed-handshake route). Each is one lock-step conversation with the real server (real TLS handshakes, in a synctest bubble): HELO, EHLO/LHLO keyword set compared with an independent capability function, then one probe per extension (8BITMIME, SMTPUTF8, REQUIRETLS, BINARYMIME, RET, ENVID, SIZE within/above, NOTIFY, ORCPT, RRVS, recipients up to limit+1, BDAT, AUTH, STARTTLS and the capability list after it). states = configurations; transitions = commands sent. Non-trivial: all.", c12Size, c12Rcpt, len(cases))
+	run.Rule = fmt.Sprintf("the COMPLETE configuration space: 5 extension flags x size limit {0,%d} x recipient limit {0,%d} x TLS {none, available, active via implicit TLS, active via STARTTLS, available but the handshake after STARTTLS failed (still plaintext)} x AllowInsecureAuth x backend {auth-capable, plain} x {SMTP, LMTP} = %d configurations (the statement's 3072 plus the second route to TLS-active and the failed-handshake route). Each is one lock-step conversation with the real server (real TLS handshakes, in a synctest bubble): HELO, EHLO/LHLO keyword set compared with an independent capability function, then one probe per extension (8BITMIME, SMTPUTF8, REQUIRETLS, BINARYMIME, RET, ENVID, SIZE within/above, NOTIFY, ORCPT, RRVS, recipients up to limit+1, BDAT, AUTH, STARTTLS and the capability list after it). Plus 12 pairs of connections of ONE server in different TLS states, one held inside the backend's AuthMechanisms callback while the other completes its EHLO: each reply is that of its own connection. states = configurations; transitions = commands sent. Non-trivial: all.", c12Size, c12Rcpt, len(cases))
 	run.Assumptions = []string{"REQUIRETLS enabled by configuration but probed outside TLS (not advertised there) is not judged: the statement fixes only 'advertised => accepted' and 'disabled by configuration => 504'"}
 	h.ParallelFor(len(cases), func(i int) {
 		if run.Expired() {
@@ -341,6 +422,24 @@ func C12(tier string) int {
 		}
 		if i%997 == 3 {
 			run.Sample("config", 5, c)
+		}
+	})
+	// two connections of one server in different TLS states whose EHLO handling overlaps
+	var pcases []C12PairCase
+	for _, first := range []bool{false, true} {
+		for mask := 0; mask < 8; mask++ {
+			if !first && mask&1 == 0 {
+				continue // AUTH is not permitted on that plaintext connection: AuthMechanisms is not consulted, nothing to hold
+			}
+			pcases = append(pcases, C12PairCase{FirstTLS: first, Cfg: h.Config{AllowInsecureAuth: mask&1 != 0, RequireTLS: mask&2 != 0, UTF8: mask&4 != 0, DSN: true, MaxMessageBytes: int64(mask) * 100}})
+		}
+	}
+	h.ParallelFor(len(pcases), func(i int) {
+		f := evalC12Pair(pcases[i])
+		run.Eval(true)
+		if f != nil {
+			run.Violate("c12-pair", pcases[i], f, func() *h.Finding { return evalC12Pair(pcases[i]) })
+			run.Outcome("violation:" + f.Sig)
 		}
 	})
 	run.Transition(c12Cmds.Load())
